@@ -181,6 +181,32 @@ Proof.
   rewrite <- concat_app, firstn_skipn. apply concat_chunk. nl.
 Qed.
 
+(* ------------------------------------------------------------------ keep *)
+
+Lemma Forall_flat_map_repeat {A} (P : A -> Prop) (k : nat) (l : list A) :
+  Forall P l -> Forall P (flat_map (fun r => repeat r k) l).
+Proof.
+  induction 1; cbn; auto. apply Forall_app; split; auto.
+  clear - H. induction k; cbn; auto.
+Qed.
+
+(** a negative scalar count keeps |count| copies of every row and reverses the rows
+    (tests/dyadic.ua:164; the doc sentence about negative counts concerns lists) *)
+Theorem keep_neg_scalar : forall fill a n s z, ash a = n :: s -> wf a -> (0 < z <= amt_limit)%Z ->
+  p_keep fill true [AInt (- z)] a = (r <- p_keep fill true [AInt z] a ;; Ok (p_reverse r)).
+Proof.
+  intros fill [t sh d] n s z Hs Hw Hz; cbn [aty ash adata] in *; subst sh. unfold wf in Hw; cbn [ash adata] in Hw.
+  unfold p_keep; cbn [existsb ash aty adata orb].
+  replace (Z.abs (- z)) with z by lia. replace (Z.abs z) with z by lia.
+  destruct (Z.ltb_spec amt_limit z); [lia|]. cbn [bind].
+  destruct (Z.ltb_spec (- z) 0); [|lia]. destruct (Z.ltb_spec z 0); [lia|].
+  set (rs := flat_map (fun r => repeat r (Z.to_nat z)) (chunk (prodn s) n d)).
+  assert (F : Forall (fun r => length r = prodn s) rs).
+  { apply Forall_flat_map_repeat, chunk_rows_len. nl. }
+  unfold of_drows, p_reverse; cbn [ash aty adata orb bind]. rewrite rev_length.
+  rewrite (chunk_concat _ _ F). reflexivity.
+Qed.
+
 (* ------------------------------------------------------------------ member / index-in *)
 
 (** "memberof is closely related to indexin" (defs.rs:1849,1871): an item is a member exactly
